@@ -1300,6 +1300,11 @@ def main(chk: Check, replay: dict | None = None) -> int:
     mcases = []
     n_models = 120 if chk.thorough else 24
     outside = 0
+    for c0 in load_corpus("C01"):      # corpus documents of the models fragment run first
+        if c0["input"].get("models_fragment"):
+            mc = models_case(c0["input"]["doc"], tuple(c0["input"]["layout"]))
+            if mc is not None:
+                mcases.append(mc)
     for k in range(n_models):
         d = models_fragment_document(mrng)
         if k % 6 == 5:      # a back edge: the reference graph is no longer acyclic (the guard of F01a fails)
